@@ -293,6 +293,9 @@ pub fn generate(seed: u64, tier: &str, sink: &mut Sink) {
             }
         }
     }
+    // the streaming text reader after transport errors: what it hands out, before and after an error, is a prefix
+    // of the decoded text (its small-read staging buffer must not hand anything out twice)
+    crate::p_c18::stage_cases(&mut Rng::new(seed ^ 0xC025), if thorough { 3000 } else { 300 }, true, sink);
     // the JSON readers: `json()` / `json_utf8()` stop parsing at the end of the document — they must still not
     // return Ok unless the framing behind the document is complete (terminating chunk and its final line ending,
     // trailer section, outstanding Content-Length octets)
